@@ -288,7 +288,7 @@ BUILTIN_EXC = {
 
 TYPE_NAMES = {"date", "datetime", "timedelta", "time", "tzinfo", "list", "str",
               "tuple", "int", "dict", "object", "bytes", "bool", "float", "set",
-              "type"}
+              "type", "Mapping", "MutableMapping"}
 
 
 def external_type(dotted):
@@ -372,15 +372,15 @@ class Interp:
         n["hasattr"] = Native("hasattr", self._hasattr)
         n["getattr"] = Native("getattr", self._getattr)
         n["len"] = Native("len", lambda i, a, k: len(self._as_list(a[0])))
-        n["max"] = Native("max", lambda i, a, k: self._minmax(a, True))
-        n["min"] = Native("min", lambda i, a, k: self._minmax(a, False))
+        n["max"] = Native("max", lambda i, a, k: self._minmax(a, True, k))
+        n["min"] = Native("min", lambda i, a, k: self._minmax(a, False, k))
         n["object"] = Native("object", lambda i, a, k: Obj(None))
         n["tuple"] = Native("tuple", lambda i, a, k: tuple(self._as_list(a[0])) if a else ())
         n["list"] = Native("list", lambda i, a, k: list(self._as_list(a[0])) if a else [])
         n["iter"] = Native("iter", lambda i, a, k: list(self._as_list(a[0])))
         n["range"] = Native("range", self._range)
         n["int"] = Native("int", self._int)
-        n["str"] = Native("str", lambda i, a, k: self._str(a[0]) if a else "")
+        n["str"] = Native("str", self._str_ctor)
         n["repr"] = Native("repr", lambda i, a, k: "<repr>")
         n["any"] = Native("any", lambda i, a, k: any(self.truth(x) for x in self._as_list(a[0])))
         n["all"] = Native("all", lambda i, a, k: all(self.truth(x) for x in self._as_list(a[0])))
@@ -393,15 +393,33 @@ class Interp:
         n["filter"] = Native("filter", lambda i, a, k: [
             x for x in self._as_list(a[1])
             if self.truth(x if a[0] is None else self.call(a[0], [x], {}))])
-        n["enumerate"] = Native("enumerate", lambda i, a, k: list(enumerate(self._as_list(a[0]))))
+        n["enumerate"] = Native("enumerate", lambda i, a, k: list(enumerate(
+            self._as_list(a[0]), self._concrete_int(a[1] if len(a) > 1 else k.get("start", 0)))))
         n["type"] = Native("type", self._type)
         n["property"] = Native("property", lambda i, a, k: PropertyVal(
             *a[:3], **{{"fget": "get", "fset": "set", "fdel": "delete"}.get(kk, kk): vv
                       for kk, vv in k.items() if kk != "doc"}))
         n["set"] = Native("set", lambda i, a, k: set(self._as_list(a[0])) if a else set())
-        n["dict"] = Native("dict", lambda i, a, k: dict(a[0]) if a else {})
+        n["dict"] = Native("dict", self._dict_ctor)
         n["id"] = Native("id", lambda i, a, k: id(a[0]))
         n["abs"] = Native("abs", self._abs)
+
+        def _ord(i, a, k):
+            x = a[0].strval if isinstance(a[0], Obj) and a[0].strval is not None else a[0]
+            if isinstance(x, (str, bytes)) and len(x) == 1:
+                return ord(x)
+            raise AbsRaise("TypeError", "ord() expected a character")
+
+        def _chr(i, a, k):
+            try:
+                return chr(self._concrete_int(a[0]))
+            except (ValueError, OverflowError) as e:
+                raise AbsRaise("ValueError", str(e))
+        n["ord"] = Native("ord", _ord)
+        n["chr"] = Native("chr", _chr)
+        n["divmod"] = Native("divmod", lambda i, a, k: divmod(self._concrete_int(a[0]), self._concrete_int(a[1])))
+        n["sum"] = Native("sum", lambda i, a, k: sum(self._concrete_int(x) for x in self._as_list(a[0])))
+        n["round"] = Native("round", lambda i, a, k: round(*a))
         self.type_ctor = {t: n[t] for t in ("object", "tuple", "list", "int", "str",
                                             "type", "set", "dict")}
         for t in TYPE_NAMES:
@@ -428,6 +446,17 @@ class Interp:
         return x
 
     def _int(self, i, a, k):
+        if not a:
+            return 0
+        if len(a) > 1 or k:
+            base = a[1] if len(a) > 1 else k.get("base")
+            x = a[0].strval if isinstance(a[0], Obj) and a[0].strval is not None else a[0]
+            if isinstance(x, (str, bytes)) and isinstance(base, int) and set(k) <= {"base"}:
+                try:
+                    return int(x, base)
+                except ValueError as e:
+                    raise AbsRaise("ValueError", str(e))
+            raise Unsupported(f"int({a!r}, {k!r})")
         x = a[0]
         if isinstance(x, (int, bool)):
             return int(x)
@@ -448,8 +477,17 @@ class Interp:
     def _str(self, x):
         if isinstance(x, str):
             return x
+        if isinstance(x, Obj) and x.cls is not None:
+            sm = self.model.lookup_method(x.cls, "__str__")
+            if sm is not None:
+                r = self.call(Bound(Closure(sm), x), [], {})
+                return r.strval if isinstance(r, Obj) and r.strval is not None else r
         if isinstance(x, Obj) and x.strval is not None:
             return x.strval
+        if isinstance(x, Obj) and "intval" in x.attrs and isinstance(x.attrs["intval"], int):
+            return str(x.attrs["intval"])
+        if isinstance(x, Obj) and "floatval" in x.attrs and isinstance(x.attrs["floatval"], float):
+            return str(x.attrs["floatval"])
         if isinstance(x, (int, float, bytes, bool)) or x is None:
             return str(x)
         return "<str>"
@@ -468,12 +506,21 @@ class Interp:
             return TypeTok("list")
         raise Unsupported(f"type() of {x!r}")
 
-    def _minmax(self, a, is_max):
+    def _minmax(self, a, is_max, k=None):
+        k = k or {}
+        if set(k) - {"key", "default"}:
+            raise Unsupported(f"min/max keywords {sorted(k)}")
         vals = self._as_list(a[0]) if len(a) == 1 else list(a)
+        if not vals:
+            if "default" in k:
+                return k["default"]
+            raise AbsRaise("ValueError", "min()/max() arg is an empty sequence")
+        key = k.get("key")
+        kv = (lambda x: self.call(key, [x], {})) if key is not None else (lambda x: x)
         best = vals[0]
         for v in vals[1:]:
-            gt = self.compare(ast.Gt(), v, best)
-            if (gt and is_max) or (not gt and not is_max and self.compare(ast.Lt(), v, best)):
+            gt = self.compare(ast.Gt(), kv(v), kv(best))
+            if (gt and is_max) or (not gt and not is_max and self.compare(ast.Lt(), kv(v), kv(best))):
                 best = v
         return best
 
@@ -496,7 +543,7 @@ class Interp:
         if isinstance(x, tuple):
             return {"tuple", "object"}
         if isinstance(x, dict):
-            return {"dict", "object"}
+            return {"dict", "object", "Mapping", "MutableMapping"}
         if isinstance(x, (set, frozenset)):
             return {"set", "object"}
         if isinstance(x, DT):
@@ -515,6 +562,8 @@ class Interp:
                         out.add("cls:" + c.qualname)
                     else:
                         out.add(str(c).split(".")[-1].replace("OrderedDict", "dict"))
+            if x.items is not None:
+                out |= {"Mapping", "MutableMapping", "dict"}
             return out
         if isinstance(x, (Closure, Bound, Native)):
             return {"function", "object"}
@@ -576,6 +625,38 @@ class Interp:
             except (ValueError, TypeError):
                 return None
         return None
+
+    def _str_ctor(self, i, a, k):
+        if not a:
+            return ""
+        if len(a) > 1 or k:
+            x = a[0]
+            if isinstance(x, bytes):
+                try:
+                    return str(x, *a[1:], **k)
+                except (UnicodeError, LookupError, TypeError) as e:
+                    raise AbsRaise(type(e).__name__ if not isinstance(e, UnicodeError)
+                                   else "UnicodeDecodeError", str(e))
+            raise Unsupported(f"str({a!r}, {k!r})")
+        return self._str(a[0])
+
+    def _dict_ctor(self, i, a, k):
+        out = {}
+        if a:
+            src = a[0]
+            if isinstance(src, Obj) and src.items is not None:
+                for key in list(src.items.keys()):
+                    out[key] = self.getitem(src, key)       # dict(m): keys() + m[key]
+            elif isinstance(src, dict):
+                out.update(src)
+            else:
+                for pair in self._as_list(src):
+                    pr = self._as_list(pair)
+                    if len(pr) != 2:
+                        raise AbsRaise("ValueError", "dictionary update sequence element has length != 2")
+                    out[pr[0]] = pr[1]
+        out.update(k)
+        return out
 
     def _sorted(self, i, a, k):
         xs = self._as_list(a[0])
@@ -821,8 +902,13 @@ class Interp:
         if isinstance(o, RegexVal):
             return self._regex_method(o, name)
         if isinstance(o, MatchVal):
-            if name in ("group", "groups", "start", "end", "span"):
-                return Native(name, lambda i, a, k, o=o: getattr(o.m, name)(*a))
+            if name in ("group", "groups", "start", "end", "span", "groupdict"):
+                def mm(i, a, k, o=o, name=name):
+                    try:
+                        return getattr(o.m, name)(*a, **k)
+                    except IndexError as e:
+                        raise AbsRaise("IndexError", str(e))
+                return Native(name, mm)
             raise Unsupported(f"match.{name}")
         if isinstance(o, TZ):
             if name in ("localize", "normalize", "zone"):
@@ -879,6 +965,13 @@ class Interp:
                     except KeyError as e:
                         raise AbsRaise("KeyError", str(e))
                 return Native(name, setop)
+        if isinstance(o, TimeVal):
+            if name in ("hour", "minute", "second", "microsecond"):
+                return ("field", name)
+            if name == "tzinfo":
+                return None if o.kind == "naive" else TZ("utc", "UTC")
+            if name in ("year", "month", "day", "date", "timetz", "astimezone", "timestamp"):
+                raise AbsRaise("AttributeError", f"'datetime.time' object has no attribute {name!r}")
         if isinstance(o, Closure) and name in ("__annotations__",):
             return {}
         if isinstance(o, Unknown):
@@ -940,7 +1033,32 @@ class Interp:
                 raise AbsRaise("ValueError", "list.remove(x): x not in list")
             return Native("remove", rem)
         if name == "sort":
-            return Native("sort", lambda i, a, k: o.sort())
+            def sort(i, a, k):
+                if a or set(k) - {"key", "reverse"}:
+                    raise Unsupported(f"list.sort({a!r}, {sorted(k)})")
+                key = k.get("key")
+                rev = self.truth(k.get("reverse", False))
+                try:
+                    if key is None:
+                        o.sort(reverse=rev)
+                    else:
+                        o.sort(key=lambda x: self.call(key, [x], {}), reverse=rev)
+                except TypeError as e:
+                    raise AbsRaise("TypeError", str(e))
+            return Native("sort", sort)
+        if name == "reverse":
+            return Native("reverse", lambda i, a, k: o.reverse())
+        if name == "clear":
+            return Native("clear", lambda i, a, k: o.clear())
+        if name == "count":
+            return Native("count", lambda i, a, k: sum(1 for y in o if self._equal(a[0], y)))
+        if name == "index":
+            def index(i, a, k):
+                for j, y in enumerate(o):
+                    if self._equal(a[0], y):
+                        return j
+                raise AbsRaise("ValueError", "x not in list")
+            return Native("index", index)
         if name == "insert":
             return Native("insert", lambda i, a, k: o.insert(a[0], a[1]))
         if name == "copy":
@@ -1042,6 +1160,17 @@ class Interp:
             return Native("update", lambda i, a, k: o.update(*a))
         if not hasattr(o, name):
             raise AbsRaise("AttributeError", f"'dict' object has no attribute {name!r}")
+        if name in ("__getitem__", "__contains__", "__len__", "setdefault", "pop", "copy", "__setitem__",
+                    "__delitem__", "clear", "popitem", "__iter__"):
+            def dm(i, a, k, name=name):
+                try:
+                    r = getattr(o, name)(*a, **k)
+                except KeyError as e:
+                    raise AbsRaise("KeyError", str(e))
+                except TypeError as e:
+                    raise AbsRaise("TypeError", str(e))
+                return list(r) if name == "__iter__" else r
+            return Native(name, dm)
         raise Unsupported(f"dict.{name}")
 
     # -- repo objects
@@ -1196,7 +1325,56 @@ class Interp:
             return r.pattern
         raise Unsupported(f"regex.{name}")
 
+    def _copy(self, x, deep, memo):
+        """copy.copy / copy.deepcopy on abstract values (no __copy__/__deepcopy__/__reduce__
+        overrides in the repo classes: checked, else unsupported)."""
+        if isinstance(x, (str, bytes, int, float, bool, type(None), tuple)) and not deep:
+            return x
+        if isinstance(x, (str, bytes, int, float, bool, type(None), DT, TD, TZ, TimeVal, ClassVal,
+                          TypeTok, Closure, Native, NativeObj)):
+            return x
+        if id(x) in memo:
+            return memo[id(x)]
+        if isinstance(x, tuple):
+            return tuple(self._copy(y, True, memo) for y in x)
+        if isinstance(x, list):
+            out = []
+            memo[id(x)] = out
+            out.extend(self._copy(y, True, memo) if deep else y for y in x)
+            return out
+        if isinstance(x, dict):
+            out = {}
+            memo[id(x)] = out
+            for k, v in x.items():
+                out[k] = self._copy(v, True, memo) if deep else v
+            return out
+        if isinstance(x, (set, frozenset)):
+            return type(x)(x)
+        if isinstance(x, Obj):
+            if x.cls is not None:
+                for special in ("__copy__", "__deepcopy__", "__reduce__", "__reduce_ex__",
+                                "__getstate__", "__setstate__"):
+                    if self.model.lookup_method(x.cls, special) is not None:
+                        raise Unsupported(f"copy of {x.cls.name} with {special}")
+            n = Obj(x.cls, None)
+            memo[id(x)] = n
+            n.strval = x.strval
+            n.listval = None if x.listval is None else (
+                [self._copy(y, True, memo) for y in x.listval] if deep else list(x.listval))
+            if x.items is not None:
+                n.items = OrderedDict((k, self._copy(v, True, memo) if deep else v)
+                                      for k, v in x.items.items())
+            # instance attributes: the same objects for a shallow copy
+            n.attrs = {k: (self._copy(v, True, memo) if deep else v) for k, v in x.attrs.items()}
+            return n
+        raise Unsupported(f"copy of {x!r}")
+
     def _native_obj_attr(self, o, name):
+        if o.name == "copy":
+            if name in ("copy", "deepcopy"):
+                return Native("copy." + name, lambda i, a, k, deep=(name == "deepcopy"):
+                              self._copy(a[0], deep, {}))
+            raise Unsupported(f"copy.{name}")
         if o.name == "re":
             if name == "compile":
                 return Native("re.compile", self._re_compile)
@@ -1222,7 +1400,12 @@ class Interp:
             raise Unsupported(f"tzp.{name}")
         if o.name == "types_factory":
             if name == "for_property":
-                return Native("for_property", lambda i, a, k: ClassVal(self.model.class_for_property(self._str(a[0]))))
+                def for_property(i, a, k):
+                    ci = self.model.class_for_property(self._str(a[0]))
+                    if ci is None:
+                        raise AbsRaise("KeyError", self._str(a[0]))
+                    return ClassVal(ci)
+                return Native("for_property", for_property)
             if name == "all_types":
                 tf = self.model.cls("prop.TypesFactory")
                 init = tf.methods["__init__"]
@@ -1238,7 +1421,13 @@ class Interp:
                 tm, _ = self.model.types_map()
                 mp = Obj(self.model.cls("caselessdict.CaselessDict"), OrderedDict(tm))
                 return mp
-            raise Unsupported(f"types_factory.{name}")
+            # anything else: the TypesFactory method as written, on an instance built by
+            # interpreting TypesFactory.__init__
+            tf = self.__dict__.get("_tf_instance")
+            if tf is None:
+                tf = self.instantiate(self.model.cls("prop.TypesFactory"), [], {})
+                self.__dict__["_tf_instance"] = tf
+            return self.getattr(tf, name)
         raise Unsupported(f"{o.name}.{name}")
 
     def _localize_utc(self, i, a, k):
@@ -1248,6 +1437,18 @@ class Interp:
         x = a[0]
         if isinstance(x, DT):
             return x.with_(kind="utc", zone=None)
+        # anything else first goes through tools.to_datetime, as in TZP.localize_utc
+        td = self.model.func("tools.to_datetime", required=False)
+        if td is not None and not isinstance(x, Unknown):
+            y = self.call(Closure(td), [x], {})
+            if isinstance(y, DT):
+                return y.with_(kind="utc", zone=None)
+            if isinstance(y, TimeVal):
+                # a provider's localize_utc on a datetime.time: zoneinfo's replace(tzinfo=)
+                # works on times, pytz's utc.localize does not
+                if self.provider == "pytz":
+                    raise AbsRaise("AttributeError", "'datetime.time' object has no attribute 'utcoffset'")
+                return TimeVal("utc")
         raise Unsupported(f"localize_utc({x!r})")
 
     def _localize(self, i, a, k):
@@ -1648,10 +1849,66 @@ class Interp:
             raise AbsRaise("TypeError", f"unexpected keyword argument {list(kwargs)[0]}")
         return env
 
+    KNOWN_DECORATORS = ("property", "classmethod", "staticmethod", "abstractmethod", "abc.abstractmethod")
+
+    def _memo_key(self, x):
+        """Python hash/equality of a cache key (functools.lru_cache semantics)."""
+        if isinstance(x, (str, bytes, int, float, bool)) or x is None:
+            return x
+        if isinstance(x, tuple):
+            return tuple(self._memo_key(y) for y in x)
+        if isinstance(x, (list, dict, set)):
+            raise AbsRaise("TypeError", f"unhashable type: {type(x).__name__!r}")
+        if isinstance(x, Obj):
+            if x.cls is not None and (self.model.lookup_method(x.cls, "__hash__") is not None
+                                      or (self.model.lookup_method(x.cls, "__eq__") is not None
+                                          and x.strval is None and "intval" not in x.attrs)):
+                if x.items is not None or x.listval is not None:
+                    raise AbsRaise("TypeError", "unhashable type")
+                raise Unsupported(f"cache key with a custom __hash__/__eq__: {x!r}")
+            if x.items is not None or x.listval is not None:
+                raise AbsRaise("TypeError", "unhashable type")
+            if x.strval is not None:
+                return x.strval          # str subclasses hash and compare as their text
+            if "intval" in x.attrs:
+                return x.attrs["intval"]  # int subclasses (vInt, vBoolean): True == 1 == 1.0
+            if "floatval" in x.attrs:
+                return x.attrs["floatval"]
+            return ("obj", x.uid)
+        if isinstance(x, (DT, TD)):
+            return ("val", repr(x.key()))
+        if isinstance(x, ClassVal):
+            return ("class", x.ci.qualname)
+        if isinstance(x, TypeTok):
+            return ("type", x.name)
+        raise Unsupported(f"cache key {x!r}")
+
     def _call_closure(self, f, args, kwargs, new_obj=None):
         node = f.node
         if f.fi is not None and f.fi.qualname in self.contracts:
             return self.contracts[f.fi.qualname](self, args, kwargs)
+        # decorators change what a call does: the memoising ones are modelled,
+        # anything unknown stops the analysis instead of being ignored
+        if f.fi is not None and f.fi.decorators and not getattr(self, "_in_memo", None) == f.fi.qualname:
+            for d in f.fi.decorators:
+                base = d.split("(")[0]
+                if base in self.KNOWN_DECORATORS or base.endswith((".setter", ".getter", ".deleter")):
+                    continue
+                if base in ("functools.lru_cache", "lru_cache", "functools.cache", "cache"):
+                    memo = self.__dict__.setdefault("_memo", {}).setdefault(f.fi.qualname, {})
+                    key = (tuple(self._memo_key(a) for a in args),
+                           tuple(sorted((k, self._memo_key(v)) for k, v in kwargs.items())))
+                    if key in memo:
+                        return memo[key]
+                    prev = getattr(self, "_in_memo", None)
+                    self._in_memo = f.fi.qualname
+                    try:
+                        r = self._call_closure(f, args, kwargs, new_obj)
+                    finally:
+                        self._in_memo = prev
+                    memo[key] = r
+                    return r
+                raise Unsupported(f"decorator @{d} on {f.fi.qualname}")
         self.depth += 1
         if self.depth > self.MAX_DEPTH:
             self.depth -= 1
@@ -1951,6 +2208,9 @@ class Interp:
         if isinstance(e, ast.Yield):
             env.yields.append(self.eval(e.value, env) if e.value else None)
             return None
+        if isinstance(e, ast.YieldFrom):
+            env.yields.extend(self._as_list(self.eval(e.value, env)))
+            return None
         if isinstance(e, ast.Starred):
             raise Unsupported("starred expression")
         raise Unsupported(f"expression {type(e).__name__}")
@@ -2117,6 +2377,11 @@ class Interp:
                     return t
                 if r[1] == "re":
                     return NativeObj("re")
+                if r[1] == "copy":
+                    return NativeObj("copy")
+                if r[1] in ("copy.copy", "copy.deepcopy"):
+                    return Native(r[1], lambda i, a, k, deep=r[1].endswith("deepcopy"):
+                                  self._copy(a[0], deep, {}))
                 if r[1] == "re.compile":
                     return Native("re.compile", self._re_compile)
                 return Unknown(f"external {r[1]}")
